@@ -329,7 +329,21 @@ func limit(w *tr.W, logger *log.Logger, i int, c kase) error {
 	}
 	m := tr.M{"ev": "limit", "i": i, "typ": c.Typ, "from": c.From, "to": c.To, "br": evBridges(p.Bridges), "cl": evClaims(p.Claims),
 		"limit": c.Limit, "retry": p.IsARetry(), "allow": c.Allow, "req": c.Req}
-	res, rerr := flows.NewMaxL2BlockNumberLimiter(lim, logger, c.Allow, c.Req).AdaptCertificate(p)
+	limiter := flows.NewMaxL2BlockNumberLimiter(lim, logger, c.Allow, c.Req)
+	if i%2 == 1 {
+		// the limiter lives as long as the flow: in every other case it has already been asked about an earlier version of this
+		// certificate (same range, retry count and type; an L2 reorg has changed the events since) - it must not remember it
+		p0 := *p
+		if len(p.Bridges) > 0 {
+			p0.Bridges = append([]bridgesync.Bridge(nil), p.Bridges[1:]...)
+		}
+		if len(p.Claims) > 0 {
+			p0.Claims = append([]bridgesync.Claim(nil), p.Claims[:len(p.Claims)-1]...)
+		}
+		_, _ = limiter.AdaptCertificate(&p0)
+		m["second"] = true
+	}
+	res, rerr := limiter.AdaptCertificate(p)
 	putResult(m, res, rerr)
 	w.Emit(m)
 	return nil
